@@ -226,6 +226,8 @@ def rs_val(prog, t, v, leak=True):
     if k == "box":
         return "Box::new(%s)" % rs_opaque(prog, t[1], v["id"])
     if k == "ref":
+        if t[2]:
+            return "Box::leak(Box::new(%s))" % rs_opaque(prog, t[3], v["id"])      # &mut
         return "(&*Box::leak(Box::new(%s)))" % rs_opaque(prog, t[3], v["id"])
     if k == "opt":
         if v is None:
